@@ -1,16 +1,11 @@
 #!/bin/bash
-# usage: batch_eval.sh <prefix dir, e.g. /tmp/w2-> <ids...> : confirm and evaluate every mN of each id
+# usage: batch_eval.sh <prefix dir, e.g. /tmp/w4-> <ids...> : confirm and evaluate every mN of each id (3 in parallel)
 pre=$1; shift
-for id in "$@"; do
-  for d in ${pre}${id}/seeded/m*; do
-    m=$(basename $d)
-    race=""
-    grep -qi "\-race" $d/README.md 2>/dev/null && grep -qi "needs.*-race\|must be run with.*-race\|go test -race" $d/README.md && race="-race"
-    c=$(/verif/confirm_seeded.sh $d $race 2>&1 | tail -1)
-    case "$c" in CONFIRMED) ;; *) c2=$(/verif/confirm_seeded.sh $d -race 2>&1 | tail -1); [ "$c2" = "CONFIRMED" ] && c="CONFIRMED(-race)";; esac
-    e=$(/verif/eval_seeded.sh $id $d 2>&1)
-    v=$(echo "$e" | tail -1 | awk '{print $1}')
-    k=$(echo "$e" | grep "^violation key" | sed 's/violation key=//; s/ seed.*//' | tr '\n' ' ')
-    echo "$id $m | $c | $v | $k"
-  done
-done
+for id in "$@"; do for d in ${pre}${id}/seeded/m*; do echo "$id $d"; done; done | xargs -P 3 -L 1 bash -c '
+id=$0; d=$1; m=$(basename $d)
+c=$(/verif/confirm_seeded.sh $d 2>&1 | tail -1)
+case "$c" in CONFIRMED) ;; *) c2=$(/verif/confirm_seeded.sh $d -race 2>&1 | tail -1); [ "$c2" = "CONFIRMED" ] && c="CONFIRMED(-race)";; esac
+e=$(/verif/eval_seeded.sh $id $d 2>&1)
+v=$(echo "$e" | tail -1 | awk "{print \$1}")
+k=$(echo "$e" | grep "^violation key" | sed "s/violation key=//; s/ seed.*//" | tr "\n" " ")
+echo "$id $m | $c | $v | $k"' | sort
